@@ -15,7 +15,7 @@ RULE = ("Square systems of order 2-5 with modes 2-12 (<= 2000 unknowns) from thr
         "local_solver 1 (GMRES; Krylov length x restarts (40,2) default, (15,6) or (10,10) so that restarted cycles really run) or 2 (BiCGSTAB); x0 None or a random TT; the seed of the library's internal randomness. "
         "Oracle: x is a TT tensor of shape b.N and ||A x - b|| <= 5 eps ||b|| with A x formed densely by the checker. "
         "Non-trivial: iterative local solver used, or preconditioner set, or x0 given.")
-BUDGET = {"quick": 1280, "thorough": 24000}
+BUDGET = {"quick": 1280, "thorough": 32000}
 FLOORS = {"quick": {"class:spd": 100, "class:laplace": 100, "class:dd": 100, "prec:c": 100, "prec:r": 100,
                     "solver:gmres": 60, "solver:bicgstab": 60, "solver:direct_if_small": 150, "x0": 100}}
 SHRINK = {"quick": False, "thorough": True}
